@@ -102,13 +102,14 @@ func (e *AsLeaf) As(target interface{}) bool {
 // StackSafeLeaf: a third-party style leaf that has BOTH a pkg/errors-style
 // StackTrace() method and a SafeDetails() method.
 type StackSafeLeaf struct {
-	Msg string
-	St  pkgErr.StackTrace
+	Msg  string
+	Safe string // reported through SafeDetails()
+	St   pkgErr.StackTrace
 }
 
 func (e *StackSafeLeaf) Error() string                 { return e.Msg }
 func (e *StackSafeLeaf) StackTrace() pkgErr.StackTrace { return e.St }
-func (e *StackSafeLeaf) SafeDetails() []string         { return []string{"stacksafe detail"} }
+func (e *StackSafeLeaf) SafeDetails() []string         { return []string{"stacksafe detail", e.Safe} }
 
 // AsWrap: a WRAPPER with its own As method: it converts itself to *AsTarget
 // and declines every other target (the search must then go on below it).
